@@ -3,31 +3,54 @@
 in : {'cases': [{'ops': [...]}, ...]}                      (default mode)
      {'mode': 'indirect', 'atexit': [scenario, ...], 'score': [scenario, ...]}  (indirect users, see below)
 out: {'out': [{'outs': [...], 'state': [...]|None}, ...]}  /  {'atexit': ..., 'score': ...}
-ops : ['add', ['I'|'F', 'num/den'], tid] ['remove', tid] ['pop'] ['peek', bool] ['empty'] ['clear'] ['iter']
-outs: ['N'] ['T', 'num/den', tid] ['K'] ['B', bool] ['L', [['num/den', tid], ...]] ['X', text]
+ops : ['add', [kind, 'num/den'], tid] ['remove', tid] ['pop'] ['peek', bool] ['empty'] ['clear'] ['iter']
+      prio kind: I int, F float, B bool, Q Fraction, Z float -0.0
+      ['tasks', 'obj'|'odd'|'eq'] (first op only: what the task objects are)
+      ['addbad', prio] ['removebad'] (unhashable task) ['iterk', k, [ops]] (k items, ops, rest of the iteration)
+outs: ['N'] ['T', 'num/den', tid, tag] ['K'] ['B', bool] ['L', [['num/den', tid, tag], ...]] ['X', text]
+      ['I', first, rest, inner outs, inner probes]; 'probes': after every op
+      [len(_queue), _removed_counter, tombstones, len(_entry_finder), empty(), len(list(q))]
 """
 import copy, json, sys
 from fractions import Fraction
 
 
-class Task:                       # hashable by identity, not orderable
-    def __init__(self, id):
-        self.id = id
+class Task:                       # hashable by identity, not orderable; all instances LOOK the same
+    def __init__(self):
+        self.label = 't'
+
+
+ODD = [0, '', (), b'', None, frozenset(), 'a', (0,)]      # falsy / odd but pairwise different hashables
+
+
+def make_tasks(kind):
+    """(get, back): task object for an id, id of a returned task.
+    'obj' identity-hashed look-alikes, 'odd' falsy values, 'eq' a FRESH but equal tuple on every use."""
+    if kind == 'odd':
+        return (lambda i: ODD[i]), (lambda t: next(i for i, x in enumerate(ODD) if type(x) is type(t) and x == t))
+    if kind == 'eq':
+        return (lambda i: ('t', i, str(i))), (lambda t: t[1])
+    objs = [Task() for _ in range(8)]
+    return objs.__getitem__, (lambda t: next(i for i, x in enumerate(objs) if x is t))
 
 
 def dec_prio(a):
-    return int(a[1]) if a[0] == 'I' else float(Fraction(a[1]))
+    k = a[0]
+    if k == 'I': return int(a[1])
+    if k == 'B': return bool(int(a[1]))
+    if k == 'Q': return Fraction(a[1])
+    if k == 'Z': return -0.0
+    return float(Fraction(a[1]))
 
 
 def frac(p):
-    if isinstance(p, bool) or not isinstance(p, (int, float)):
+    if not isinstance(p, (int, float, Fraction)):
         raise TypeError('prio %r' % (p,))
     return str(Fraction(p))
 
 
-def item(r):
-    p, t = r
-    return [frac(p), t.id]
+def tag(p):                       # the priority handed back must be the one handed in (type and sign included)
+    return '%s:%s' % (type(p).__name__, str(p) if isinstance(p, Fraction) else repr(p))
 
 
 def none(r):
@@ -36,45 +59,77 @@ def none(r):
 
 def run_case(TaskQueue, ops):
     q = TaskQueue()
-    tasks = [Task(i) for i in range(8)]
-    outs = []
-    for op in ops:
+    kind = ops[0][1] if ops and ops[0][0] == 'tasks' else 'obj'
+    get, back = make_tasks(kind)
+    R = TaskQueue._REMOVED
+
+    def item(r):
+        p, t = r
+        return [frac(p), back(t), tag(p)]
+
+    def probe():
+        """bookkeeping seen from every side, after every op (all reads are supposed to be pure)"""
+        try:
+            return [len(q._queue), int(q._removed_counter), sum(1 for e in q._queue if e[2] is R),
+                    len(q._entry_finder), bool(q.empty()), len(list(q))]
+        except Exception as e:
+            return ['X', type(e).__name__]
+
+    def do(op):
         try:
             k = op[0]
+            if k == 'tasks':
+                return ['-']
             if k == 'add':
-                o = none(q.add(dec_prio(op[1]), tasks[op[2]]))
-            elif k == 'remove':
-                o = none(q.remove(tasks[op[1]]))
-            elif k == 'clear':
-                o = none(q.clear())
-            elif k == 'empty':
+                return none(q.add(dec_prio(op[1]), get(op[2])))
+            if k == 'remove':
+                return none(q.remove(get(op[1])))
+            if k == 'clear':
+                return none(q.clear())
+            if k == 'empty':
                 r = q.empty()
-                o = ['B', r] if isinstance(r, bool) else ['X', repr(r)[:80]]
-            elif k == 'iter':
-                o = ['L', [item(x) for x in list(q)]]
-            elif k == 'pop':
-                o = ['T'] + item(q.pop())
-            elif k == 'peek':
-                o = ['T'] + item(q.peek(bool(op[1])))
-            else:
-                o = ['X', 'bad op']
+                return ['B', r] if isinstance(r, bool) else ['X', repr(r)[:80]]
+            if k == 'iter':
+                return ['L', [item(x) for x in list(q)]]
+            if k == 'pop':
+                return ['T'] + item(q.pop())
+            if k == 'peek':
+                return ['T'] + item(q.peek(bool(op[1])))
+            if k == 'addbad':                 # unhashable task: must raise TypeError and change nothing
+                return none(q.add(dec_prio(op[1]), []))
+            if k == 'removebad':
+                return none(q.remove([]))
+            if k == 'iterk':                  # iterate, modify in the middle, finish iterating
+                it = iter(q)
+                first = []
+                for _ in range(op[1]):
+                    try:
+                        first.append(item(next(it)))
+                    except StopIteration:
+                        break
+                inner = [(do(o), probe()) for o in op[2]]
+                return ['I', first, [item(x) for x in it], [a for a, _ in inner], [b for _, b in inner]]
+            return ['X', 'bad op']
         except KeyError:
-            o = ['K'] if op[0] in ('pop', 'peek') else ['X', 'KeyError']
+            return ['K'] if op[0] in ('pop', 'peek') else ['X', 'KeyError']
         except Exception as e:
-            o = ['X', type(e).__name__]
-        outs.append(o)
+            return ['X', type(e).__name__]
+
+    outs, probes = [], []
+    for op in ops:
+        outs.append(do(op))
+        probes.append(probe())
     try:
-        R = TaskQueue._REMOVED
         nxt = next(copy.copy(q._counter))
         live = sorted((e for e in q._queue if e[2] is not R), key=lambda e: (e[0], e[1]))
         st = [len(q._queue), int(q._removed_counter), int(nxt), sum(1 for e in q._queue if e[2] is R)]
-        for t, e in sorted(q._entry_finder.items(), key=lambda x: x[0].id):
-            st += [t.id, int(e[1])]
+        for t, e in sorted(((back(t), e) for t, e in q._entry_finder.items()), key=lambda x: x[0]):
+            st += [t, int(e[1])]
         for e in live:
-            st += [int(e[1]), e[2].id]
+            st += [int(e[1]), back(e[2])]
     except Exception:
         st = None
-    return {'outs': outs, 'state': st}
+    return {'outs': outs, 'probes': probes, 'state': st}
 
 
 # ---- indirect users ---------------------------------------------------------------
